@@ -26,6 +26,8 @@ def gen(run):
     ex = [pl.case(P, c, OPS) for c in pl.files(alpha, maxl)]
     # copies of the path / the needle back to back: a rejected candidate directly followed by the next one
     ex += [pl.case(P, c, OPS) for c in pl.files(pl.adjacent(P), 3)]
+    # printf directives in lines that are kept
+    ex += [pl.case(P, c, OPS) for c in pl.files(pl.percent(P), 3)]
     small = [pl.case(pl.P_PLAIN, c, OPS) for c in pl.files(pl.alphabet18(pl.P_PLAIN), 2)]
     small += [pl.case(P, c, OPS) for c in pl.files(pl.near_miss() + alpha[:6], 2)]        # near misses of the search needle
     nr = 300 if run.tier == "quick" else 5000
